@@ -75,6 +75,19 @@ if os.path.exists(p):
             k, v = l.rstrip("\n").split("\t", 1)
             sweep[k] = v.strip()
 
+# seeds of later rounds: description taken from the sub-agent's notes.md and the patch itself
+for sid in sorted(os.listdir(S)):
+    d = os.path.join(S, sid)
+    if sid in T or not os.path.isdir(d) or not os.path.exists(os.path.join(d, "patch.diff")):
+        continue
+    patch = open(os.path.join(d, "patch.diff")).read()
+    files = re.findall(r"^\+\+\+ b/(\S+)", patch, re.M)
+    funcs = sorted(set(re.findall(r"^@@ .* @@ func (?:\([^)]*\) )?([A-Za-z0-9_]+)", patch, re.M)))
+    notes = open(os.path.join(d, "notes.md")).read() if os.path.exists(os.path.join(d, "notes.md")) else ""
+    flat = " ".join(l.strip() for l in notes.splitlines() if l.strip() and not l.startswith("#"))
+    needs = " ".join(m for m in re.findall(r"[^.]*(?:[Mm]anifest|[Ss]hows up|[Nn]eeds|[Tt]riggers)[^.]*\.", flat)[:2]) or "see notes.md"
+    T[sid] = (", ".join(files) + (" " + ", ".join(funcs) if funcs else ""), flat[:500], needs.strip()[:400])
+
 for sid, (where, change, needs) in sorted(T.items()):
     d = os.path.join(S, sid)
     if not os.path.isdir(d):
